@@ -80,7 +80,14 @@ UnitsEv == /\ IsEv("units")
                 /\ Len(e.got) = Len(e.cands)
                 /\ \A i \in 1..Len(e.got) : IF e.cands[i] = <<>> THEN e.got[i] = -1 ELSE e.got[i] \in SeqSet(e.cands[i])
            /\ UNCHANGED <<n, mq, base, prevTotal>>
-Next == PSet \/ Base \/ Dur \/ AlignEv \/ UnitsEv
+\* C08 through the engine: set_speed(s) stores s itself, and the synthesized length is max(round(F1 / s), states) frames
+\* (candidates: exact quotient on the f64's binary value, both neighbours at a tie)
+ESpeed == /\ IsEv("espeed")
+          /\ LET e == Rec[l] IN
+               /\ e.stored_exactly
+               /\ (e.f1 > 0 => \E c \in SeqSet(e.cands) : e.frames = Max2(Max2(1, c), e.nstates))
+          /\ UNCHANGED <<n, mq, base, prevTotal>>
+Next == PSet \/ Base \/ Dur \/ AlignEv \/ UnitsEv \/ ESpeed
 Spec == Init /\ [][Next]_vars
 Accepted == IF TLCGet("stats").diameter - 1 = Len(Rec) THEN TRUE
             ELSE Print(<<"REJECT at", TLCGet("stats").diameter>>, FALSE)
